@@ -554,6 +554,13 @@ def fp_case(case, outdir):
     pr["logL"] = model.raw_log_likelihood(pr)
     live = pr[np.argsort(pr["logL"])][-600:]
     fp.train(live, plot=False)
+    if case["n"] % 2:
+        # a second training on other points after the maps have been used: data-dependent parts of the reparameterisations (updated bounds, shifts, scales)
+        # change, anything cached from the first use must not survive
+        fp.forward_pass(live[:64].copy(), rescale=True, compute_radius=False)
+        fp.backward_pass(draw_truncated_gaussian(fp.dims, 1.5, N=64, fuzz=1.0), rescale=True)
+        fp.train(live[-250:], plot=False)
+        rec.bump("fp_cases_with_two_trainings")
     fp.r = 2.0
     fp.alt_dist = fp.get_alt_distribution()
     n = 2000
